@@ -194,9 +194,66 @@ def mk_obs(name, fl, vals, meta):
     return obs(d.recordType(**kw))
 
 
+def run_grouped(case):
+    """Grouped records through rdump (stream in, stream out), with and without the metadata overrides: the output is the input, except
+    that an override lands where assignment through a grouped record lands - in the first member that has the field."""
+    from flow.record import RecordReader, RecordWriter
+
+    from mc.obs import obs
+
+    h = jhash(case)
+    d = scratch()
+    _n[0] += 1
+    src = os.path.join(d, "grp-%d.records" % _n[0])
+    dst = os.path.join(d, "grp-%d-out.records" % _n[0])
+    specs = [{"group": "t/g", "members": [A(1), B(2)]}, A(3), {"group": "t/g", "members": [B(4), A(5), B(6)]}, {"group": "t/g2", "members": [N(7)]}]
+    w = RecordWriter(src)
+    for sp in specs:
+        w.write(recs.build_record(sp))
+    w.close()
+    argv = [src, "-w", dst]
+    if case.get("rsource") is not None:
+        argv += ["--record-source", case["rsource"]]
+    if case.get("rclass") is not None:
+        argv += ["--record-classification", case["rclass"]]
+    if case.get("engine") == "interpreted":
+        argv += ["-n"]
+    viol = []
+    try:
+        rc, out, err = run_rdump(argv)
+        want = []
+        for sp in specs:
+            r = recs.build_record(sp)
+            if case.get("rsource") is not None:
+                r._source = case["rsource"]
+            if case.get("rclass") is not None:
+                r._classification = case["rclass"]
+            want.append(obs(r))
+        try:
+            rd = RecordReader(dst)
+            got = [obs(r) for r in rd]
+            rd.close()
+        except Exception as e:  # noqa: BLE001
+            got = None
+            viol.append(("C16:grouped:output-unreadable:%s" % type(e).__name__, case, {"error": repr(e)[:200], "rc": repr(rc)[:80]}))
+        if got is not None and got != want:
+            i = next((i for i, (a, b) in enumerate(zip(got, want)) if a != b), min(len(got), len(want)))
+            viol.append(("C16:grouped:records-differ:%s" % ("override" if case.get("rsource") is not None or case.get("rclass") is not None else "identity"), case,
+                         {"index": i, "got": got[i] if i < len(got) else None, "want": want[i] if i < len(want) else None, "counts": [len(got), len(want)]}))
+    finally:
+        for p_ in (src, dst):
+            try:
+                os.unlink(p_)
+            except OSError:
+                pass
+    return {"ev": 1, "h": h, "nt": True, "out": "grouped:%s" % ("ok" if not viol else "bad"), "viol": viol}
+
+
 def run_case(case):
     if case["kind"] == "slice":
         return run_slice(case)
+    if case["kind"] == "grouped":
+        return run_grouped(case)
     return run_writer(case)
 
 
@@ -499,7 +556,14 @@ def run_writer(case):
             "count": {"rdump_runs": 1}, "sample": case if int(h, 16) % 499 == 0 else None}
 
 
+def grouped_cases():
+    for rsource, rclass in ((None, None), ("over-src", None), (None, "over-cls"), ("over-src", "over-cls"), ("", "")):
+        for engine in ("compiled", "interpreted"):
+            yield {"kind": "grouped", "rsource": rsource, "rclass": rclass, "engine": engine}
+
+
 def cases(tier, seed):
+    yield from grouped_cases()
     thorough = tier == "thorough"
     goods = ["G1", "G2", "G3", "G0", "G5"]
     maxlen = 3 if thorough else 2
